@@ -11,6 +11,8 @@ import Relsad.Model.Control
 import Relsad.Model.Fail
 import Relsad.Props.C17
 import Relsad.Props.C13
+import Relsad.Model.BusAcct
+import Relsad.Model.Battery
 
 namespace Relsad.C18
 open Relsad Relsad.Time Relsad.Fail
@@ -61,5 +63,33 @@ theorem control_run_unit_invariant (C : Control.Cfg) (s : Control.St) (dts : Lis
   induction dts generalizing s with
   | nil => rfl
   | cons d ds ih => simp only [List.map_cons, List.foldl_cons]; rw [hours_unit_invariant, ih]
+
+/-- **The energy and outage bookkeeping of a load point is unit independent**: what an increment puts on the shed stack
+and what logging adds to the accumulated energy not supplied, outage time and interruptions is the same whatever unit the
+step is written in (the code multiplies power by `dt.get_hours()`). -/
+theorem accounting_unit_invariant (b : BusAcc) (p q : ℚ) (dt : Time) (u : TimeUnit) :
+    b.addToStack p q (dt.convert u).getHours = b.addToStack p q dt.getHours ∧
+    b.shedLoad (dt.convert u).getHours = b.shedLoad dt.getHours ∧
+    b.log (dt.convert u).getHours = b.log dt.getHours := by
+  rw [hours_unit_invariant]; exact ⟨rfl, rfl, rfl⟩
+
+/-- **ASUI / ASAI are unit independent**: they divide the customer-weighted outage hours by the elapsed *hours*, whatever
+unit the elapsed time is reported in. -/
+theorem availability_unit_invariant (bs : List BusAcc) (t : Time) (u : TimeUnit) :
+    Indices.asui? bs (t.convert u).getHours = Indices.asui? bs t.getHours ∧
+    Indices.asai? bs (t.convert u).getHours = Indices.asai? bs t.getHours := by
+  rw [hours_unit_invariant]; exact ⟨rfl, rfl⟩
+
+/-- Non-vacuity: 30 minutes, 1800 seconds and half an hour put the same energy on the stack. -/
+example : (({ pload := 1/20 } : BusAcc).addToStack (1/20) 0 (Time.mk 30 .minute).getHours).pStack = 1/40 ∧
+    (({ pload := 1/20 } : BusAcc).addToStack (1/20) 0 (Time.mk 1800 .second).getHours).pStack = 1/40 := by
+  constructor <;> decide +kernel
+
+/-- **A battery (and every car of an EV park) exchanges the same power and stores the same energy whatever unit the step
+is written in.** -/
+theorem battery_unit_invariant (P : BatParams) (s : BatState) (p q : ℚ) (dt : Time) (u : TimeUnit)
+    (first : Bool) (x : ℚ) :
+    Battery.update P s p q (dt.convert u).getHours first x = Battery.update P s p q dt.getHours first x := by
+  rw [hours_unit_invariant]
 
 end Relsad.C18
